@@ -382,8 +382,9 @@ fn laid_out<F: Fl>(x: &Array2<F>, lay: usize) -> Array2<F> {
         }
         2 => {
             let mut big = Array2::from_elem((2 * n, 2 * p), F::cast(7.5));
-            big.slice_mut(s![1..;2, ..;2]).assign(x);
-            big.slice_move(s![1..;2, ..;2])
+            let r0 = n.min(1);
+            big.slice_mut(s![r0..;2, ..;2]).assign(x);
+            big.slice_move(s![r0..;2, ..;2])
         }
         _ => {
             let mut big = Array2::from_elem((n, p), F::cast(7.5));
@@ -1298,8 +1299,8 @@ fn rounds<F: Fl>(em: &mut Em, rng: &mut Rng, rounds: usize, nmax: usize, hier_ma
 
 pub fn run(em: &mut Em, rng: &mut Rng) {
     if em.thorough() {
-        rounds::<f64>(em, rng, 1700, 60, 40);
-        rounds::<f32>(em, rng, 600, 40, 30);
+        rounds::<f64>(em, rng, 4000, 60, 40);
+        rounds::<f32>(em, rng, 1500, 40, 30);
     } else {
         rounds::<f64>(em, rng, 80, 12, 12);
         rounds::<f32>(em, rng, 36, 12, 12);
